@@ -152,6 +152,26 @@ def run(tier, seed, drv):
                         if mo != rec_str(got):
                             res.disagree('multi look-up', sc, rec_str(got), mo)
                 res.nontriv(['tbl', sorted(t), ident])
+            # ---------------- the JSON store RECONFIGURED: the file now holds table 2 (every fourth time: nobody) and is
+            # reloaded; it must answer exactly what is configured NOW - also for the identities it knew before
+            t3 = {} if k % 4 == 1 else t2
+            with open(path, 'w') as f:
+                json.dump(t3, f)
+            js.load()
+            for ident in sorted(set(lookups(rng, t3)) | set(t)):
+                res.evaluations += 1
+                sc = dict(script, table2=t3, reloaded=True, lookup=ident)
+                try:
+                    got = js.get_authkey(ident)
+                except Exception as e:
+                    res.violation('C17', 'lookup-raises', 'json store (reloaded) raised %r for look-up %r' % (e, ident), sc)
+                    continue
+                monitor(res, js, 'json', t3, ident, got, sc)
+                if drv is not None and t3 is t2:
+                    mo = drv.ask('s.table 2 %s' % hexin(b_(ident)))
+                    if mo != rec_str(got):
+                        res.disagree('json look-up after reload', sc, rec_str(got), mo)
+                res.note('lookup.json-reloaded.%s' % ('hit' if got else 'miss'))
             sq._close()
             res.sample({'table': {i: r for i, r in list(t.items())[:2]}, 'lookups': lookups(rng, t)[:6]}, limit=3)
             # ---------------- environment store
